@@ -213,6 +213,10 @@ pub enum SourceSpec {
     File,
     /// BufReader over a real file
     BufFile,
+    /// flute's own create_from_file, content read into memory
+    PathRam,
+    /// flute's own create_from_file, content streamed from the file at every transfer
+    PathNoRam,
 }
 
 #[derive(Clone, Debug)]
@@ -624,6 +628,13 @@ pub fn build_object(o: &ObjSpec) -> Result<BuiltObject, String> {
             r.pos = (*at).min(o.data.len());
             seek_log = Some(log);
             ObjectDesc::create_from_stream(Box::new(r), &o.content_type, &url, o.md5, cfg)
+        }
+        SourceSpec::PathRam | SourceSpec::PathNoRam => {
+            let n = TMP_SEQ.fetch_add(1, std::sync::atomic::Ordering::Relaxed);
+            let p = sandbox_dir().join(format!("src-{}-{}.bin", std::process::id(), n));
+            std::fs::write(&p, &o.data).map_err(|e| e.to_string())?;
+            tmp_path = Some(p.clone());
+            ObjectDesc::create_from_file(&p, Some(&url), &o.content_type, o.source == SourceSpec::PathRam, o.md5, cfg)
         }
         SourceSpec::File | SourceSpec::BufFile => {
             let n = TMP_SEQ.fetch_add(1, std::sync::atomic::Ordering::Relaxed);
